@@ -315,7 +315,7 @@ class SAtom:
         self.kind, self.payload = kind, payload
 
     def key(self):
-        return (self.kind,) + tuple(id(p) if isinstance(p, (Obj, ClassV, Seq, DictV, ExtV, Callback, Opaque)) else _hashable(p) for p in self.payload)
+        return (self.kind,) + tuple(_hashable(p) for p in self.payload)
 
     def __repr__(self):
         return f"{self.kind}({', '.join(map(repr, self.payload))})"
@@ -324,6 +324,14 @@ class SAtom:
 def _hashable(p):
     if isinstance(p, SymStr):
         return tuple(x if isinstance(x, str) else x.key() for x in p.parts)
+    if isinstance(p, SAtom):
+        return p.key()
+    if isinstance(p, Seq):
+        return (p.kind,) + tuple(_hashable(x) for x in p.items)
+    if isinstance(p, DictV):
+        return ("dict",) + tuple((_hashable(k), _hashable(v)) for k, v in p.pairs)
+    if isinstance(p, (Obj, ClassV, ExtV, Callback, Opaque, Seg, SetV)):
+        return ("id", id(p))
     try:
         hash(p)
         return p
@@ -564,12 +572,14 @@ class World:
         self.step_budget = 400_000
         self.depth = 0
         self.depth_budget = 90
+        self.max_depth = 0
         self.choices: list[int] = []
         self.choice_pos = 0
         self.choice_log: list = []
         self.fork_budget = 64
         self.exploring = False
         self.set_order = "fork"  # or "insertion"
+        self.unordered_sort_ok = False  # harness promise: its oracle does not depend on the order of sorted abstract keys
         self.events: list = []
         self.alloc: list = []  # objects allocated during evaluation, in order
         self.ext_overrides: dict = {}
@@ -670,6 +680,7 @@ class World:
         self.restore()
         self.steps = 0
         self.depth = 0
+        self.max_depth = 0
         self.events = []
         self.alloc = []
 
@@ -1169,6 +1180,8 @@ class Interp:
                 return Seq(o.mro, "tuple")
             if name == "__bases__":
                 return Seq(o.bases, "tuple")
+            if name == "__base__":
+                return o.bases[0] if o.bases else None
             if name == "__dict__":
                 return ProxyV(DictV([(k, v) for k, v in o.dict.items()]))
             if name == "__class__":
@@ -1874,6 +1887,8 @@ class Interp:
         if isinstance(f.node, ast.Lambda):
             return self.ev(f.node.body, fr)
         w.depth += 1
+        if w.depth > w.max_depth:
+            w.max_depth = w.depth
         if w.depth > w.depth_budget:
             w.depth -= 1
             e = w.B.mkexc("RecursionError", "maximum recursion depth exceeded (abstract call depth budget)")
